@@ -47,7 +47,10 @@ var rfModes = []rfMode{{false, 0, ""}, {true, 64, ""}, {true, 64, "zstd"}, {true
 
 // chooseFile enumerates workload x chunk mode x CRC.
 func chooseFile(x *explore.Ctx, nWork int, modes []rfMode, crcChoice bool) *rfFile {
-	ws := rfWorkloads()
+	return chooseFileFrom(x, rfWorkloads(), nWork, modes, crcChoice)
+}
+
+func chooseFileFrom(x *explore.Ctx, ws []*model.Content, nWork int, modes []rfMode, crcChoice bool) *rfFile {
 	if nWork < len(ws) {
 		ws = ws[:nWork]
 	}
